@@ -1,4 +1,5 @@
 import Modbus.Lemmas.ReqCodec
+import Modbus.Lemmas.Wf
 /-
 C03 (request side) — the request wire format conforms to the Modbus Application Protocol.
 
@@ -58,6 +59,40 @@ theorem req_encode_ok_conforms {r : Request} {m : ReqMeaning} (hb : r.Built m) (
   obtain ⟨hf, hn, _, ht, _⟩ := hb.of_encode_ok h
   exact ⟨hf, hn, ht⟩
 
+/-! ### encode side, for ARBITRARY values (no `Built`, no hypothesis on the raw padding bits) -/
+
+/-- **every well-formed request conforms.**  `r.Wf`: its payload container (if any) holds the bytes its
+    count promises — whatever kind of value the container came from (`from_bools`, `from_words`, a decoded
+    response, a decoded request with set padding bits …); `r.Implemented`: one of the kinds `encode`
+    implements; `r.CountFits`: the byte count fits its one-byte field.  Then, with `m` the meaning of `r`
+    (what a user reads through its accessors), `r` is encodable, its wire image is the specification's PDU
+    of `m` — in particular the unused bits of the last coil byte are ZERO on the wire, whatever the
+    container's raw bytes hold — and the encoder writes exactly that into every large-enough buffer. -/
+theorem req_conforms_any (r : Request) (hw : r.Wf) (hi : r.Implemented) (hf : r.CountFits)
+    (m : ReqMeaning) (hm : r.sem = some m) :
+    r.Encodable ∧ r.image = reqBytes m ∧
+    ∀ buf : Bytes, (reqBytes m).length ≤ buf.length →
+      r.encode buf = .ok ((reqBytes m).length, reqBytes m ++ buf.drop (reqBytes m).length) := by
+  have hm' : r.meaning = some m := by rw [← hw.sem_eq]; exact hm
+  have himg := hw.image_eq_spec hm'
+  refine ⟨(hw.encodable_iff hi).mpr hf, himg, fun buf hl => ?_⟩
+  rw [hw.encode_eq hi buf, if_pos hf, himg, if_neg (by omega)]
+
+/-- the coil payload alone: the bytes `copy_to` puts on the wire for any backed container are the
+    specification's packed field of its coils -/
+theorem coils_wire_conforms (c : Coils) (hb : c.Backed) : c.copyBytes = .ok (Spec.packBits c.bits) :=
+  Coils.copyBytes_eq_packBits hb
+
+/-- non-vacuity: the request decoded from `0F 00 01 00 03 01 FF` (three coils, raw byte `FF`) is well-formed,
+    means three coils on, and re-encodes to the specification's `0F 00 01 00 03 01 07` -/
+example : (Request.writeMultipleCoils 1 ⟨[0xFF], 3⟩).Wf ∧ (Request.writeMultipleCoils 1 ⟨[0xFF], 3⟩).Implemented ∧
+    (Request.writeMultipleCoils 1 ⟨[0xFF], 3⟩).CountFits ∧
+    (Request.writeMultipleCoils 1 ⟨[0xFF], 3⟩).sem = some (.writeMultipleCoils 1 [true, true, true]) ∧
+    reqBytes (.writeMultipleCoils 1 [true, true, true]) = [0x0F, 0x00, 0x01, 0x00, 0x03, 0x01, 0x07] ∧
+    (Request.writeMultipleCoils 1 ⟨[0xFF], 3⟩).encode (List.replicate 8 0x55) =
+      .ok (7, [0x0F, 0x00, 0x01, 0x00, 0x03, 0x01, 0x07, 0x55]) := by
+  refine ⟨by decide +kernel, trivial, by decide +kernel, by decide +kernel, by decide +kernel, by decide +kernel⟩
+
 /-! ### decode side: every conformant PDU is decoded to the meaning the specification assigns it -/
 
 /-- `InScope` (Lemmas/ReqCodec.lean): a custom meaning has a code below 0x80 that is not one of the nine
@@ -114,7 +149,7 @@ example : ∃ c, Coils.fromBools [true, false, true, true, false, false, true, t
       .ok (8, [0x0F, 0xFF, 0xFF, 0x00, 0x09, 0x02, 0xCD, 0x01, 0x55, 0x55]) ∧
     Spec.reqBytes (.writeMultipleCoils 0xFFFF [true, false, true, true, false, false, true, true, true]) =
       [0x0F, 0xFF, 0xFF, 0x00, 0x09, 0x02, 0xCD, 0x01] :=
-  ⟨⟨[0xCD, 0x01, 0xAA], 9⟩, by decide +kernel, by decide +kernel, by decide +kernel⟩
+  ⟨⟨[0xCD, 0x01], 9⟩, by decide +kernel, by decide +kernel, by decide +kernel⟩
 
 example : Spec.reqBytes (.writeSingleCoil 0x0102 true) = [0x05, 0x01, 0x02, 0xFF, 0x00] := by decide +kernel
 example : Spec.reqBytes (.readHoldingRegisters 0x1234 0x0003) = [0x03, 0x12, 0x34, 0x00, 0x03] := by
